@@ -34,7 +34,8 @@ Inductive revent :=
 | EvHandler                       (* the Python-level handler runs (between bytecodes) *)
 | EvCall                          (* the executor calls wait() *)
 | EvTest                          (* `while len(self._returncodes) == 0` is evaluated *)
-| EvRead.                         (* os.read(pipe, 1) returns one byte *)
+| EvRead                          (* os.read(pipe, 1) returns one byte *)
+| EvStop.                         (* a child is STOPPED or continued (job control): SIGCHLD generated, nothing to reap *)
 
 Definition rinit : rstate :=
   {| zombies := []; kpending := false; tripped := false; pipe := 0; rcs := []; pc := PIdle; returned := [] |}.
@@ -86,6 +87,10 @@ Section Protocol.
                          rcs := rcs s; pc := PTest; returned := returned s |}
         end
       else None
+    | EvStop =>
+      (* the kernel notifies the parent of a stop as well; waitpid(-1, WNOHANG) without WUNTRACED reports nothing *)
+      Some {| zombies := zombies s; kpending := true; tripped := tripped s; pipe := pipe s;
+              rcs := rcs s; pc := pc s; returned := returned s |}
     end.
 
   Fixpoint rrun (s : rstate) (tr : list revent) : option rstate :=
